@@ -209,6 +209,51 @@ class HDocNoted:
         """Something else"""
 
 
+@h_doc(explicit_only=True)
+class HDocExplicit:
+    """Only the methods marked explicitly are reported
+
+    (the explicit_only form of the decorator)
+    """
+    _HDOC_ATTRS = [("gamma", "an attribute")]
+
+    def __init__(self):
+        self.gamma = "g"
+
+    @h_doc
+    def shown(self, a, *rest):
+        """Shown method
+
+        Details of the shown method.
+        #main
+        """
+
+    @h_doc(hidden=True)
+    def secret(self):
+        """Hidden from the class help
+
+        #main
+        """
+
+    def unmarked(self):
+        """Documented, but not marked
+
+        #main
+        """
+
+    # the same function under a second name
+    also_shown = shown
+
+
+@h_doc
+def hdoc_function(first, second=None):
+    """A documented function
+
+    With details.
+    #tools
+    """
+
+
 def _make_mcaller():
     from ak.mcaller_http import MCallerHttp, method_http
 
@@ -263,6 +308,14 @@ def hdoc_object(name):
         return HDocNoted().same_text
     if name == "method":
         return HDocSample().method_one
+    if name == "explicit":
+        return HDocExplicit()
+    if name == "explicit_cls":
+        return HDocExplicit
+    if name == "explicit_method":
+        return HDocExplicit().secret
+    if name == "func":
+        return hdoc_function
     if name == "mcaller":
         if _MC is None:
             _MC = _make_mcaller()
@@ -530,6 +583,17 @@ def start_rendering(built, conf, mode):
 def whole_text(r, how="str"):
     k = r.built.kind
     if k == "ppwrap":
+        if r.mode.get("via_repr") and not r.mode.get("how_ref"):
+            # repr() prints the text (and returns an empty string): what arrives on stdout
+            import contextlib
+            import io
+            buf = io.StringIO()
+            with contextlib.redirect_stdout(buf):
+                shown = repr(r.built.obj)
+            out = buf.getvalue()
+            if shown != "" or not out.endswith("\n"):
+                raise ValueError(f"repr(PPWrap) returned {shown!r} and printed {out[-20:]!r}")
+            return akcolor_strip_if(out[:-1], how)
         return akcolor_strip_if(str(r.built.obj), how)
     if how == "dunder":
         # PPObj.__str__: the global configuration in force now
